@@ -216,6 +216,8 @@ def run(chk):
     only = getattr(chk, "only", None)
     if not only or "proof" in only:
         kernel_obligations(chk)
+        from contracts import indexed
+        indexed.obligations(chk, chk.prop)
         chk.discharge()
     chk.assume("@njit kernels are verified as their undecorated Python bodies: numba nopython semantics == CPython on these "
                "values (no int64 overflow: array extents < 2**63); float64 treated as the reals")
